@@ -31,16 +31,16 @@ theorem Kids.fnBodies_ok (p : Nat) : ∀ (ks : Kids) (x : A), ks.okFn = true →
     simpa using hb.p1 this
   | .cons (.block q body) (.cons _ _), _, hf, _, _, _, _, _ => by simp [Kids.okFn, Kids.isNil] at hf
   | .cons (.expr e ks) r, x, hf, hpre, he, g, hg, hst => by
-    have hf' : ks.okF = true ∧ r.okFn = true := by simpa [Kids.okFn] using hf
+    have hf' : (ks.okF = true ∧ ks.pure = true) ∧ r.okFn = true := by simpa [Kids.okFn] using hf
     simp only [Kids.fnBodies] at hg
     simp only [Kids.positions] at hpre
-    have hk := visitKid_ok (.expr e ks) x (by simpa [Kid.okF] using hf'.1) hpre.left
+    have hk := visitKid_ok (.expr e ks) x (by simpa [Kid.okF] using hf'.1.1) (by simpa [Kid.pure] using hf'.1.2) hpre.left
     exact Kids.fnBodies_ok p r _ hf'.2 (hpre.right hk.frame) (hk.end_.trans he) g hg (by simpa [visitKids] using hst)
   | .cons (.fnScope p' ks) r, x, hf, hpre, he, g, hg, hst => by
     have hf' : ks.okFn = true ∧ r.okFn = true := by simpa [Kids.okFn] using hf
     simp only [Kids.fnBodies] at hg
     simp only [Kids.positions] at hpre
-    have hk := visitKid_ok (.fnScope p' ks) x (by simpa [Kid.okF] using hf'.1) hpre.left
+    have hk := visitKid_ok (.fnScope p' ks) x (by simpa [Kid.okF] using hf'.1) rfl hpre.left
     exact Kids.fnBodies_ok p r _ hf'.2 (hpre.right hk.frame) (hk.end_.trans he) g hg (by simpa [visitKids] using hst)
   | .cons (.stmt _) _, _, hf, _, _, _, _, _ => by simp [Kids.okFn] at hf
 
